@@ -22,9 +22,134 @@ fn draw_sched(ctx: &Ctx) {
 /// (a) histories written by the reference producer: after every revision the
 /// load of that prefix is "newest definition wins, untouched objects from
 /// older revisions".
+/// A history whose cross-reference chain points *forward*: the layout of a linearized file. The
+/// section `startxref` names (the newest in chain order) sits near the start of the file, with the
+/// objects it lists; its `/Prev` names the main section near the end. One object number is defined
+/// in both parts (the first part's definition is the valid one). lopdf must recover the whole
+/// document and be able to append an update to it.
+fn forward_chain_case(ctx: &Ctx, out: &mut RunOut) -> Result<(), Violation> {
+    use pdfmodel::refwriter::{dict_bytes, object_bytes};
+    let (mut m, _) = gen::gen_doc(ctx);
+    m.xref_stream = false;
+    let f = ctx.draw(W, 3, "fc-freedom") as usize;
+    let ids: Vec<(u32, u16)> = m.objects.keys().cloned().collect();
+    if ids.len() < 2 {
+        out.sample = "forward chain: document too small".into();
+        return Ok(());
+    }
+    // part A (first in the file, newest in the chain) / part B (main part)
+    let mut in_a: Vec<(u32, u16)> = ids.iter().filter(|_| ctx.chance(W, 1, 3, "fc-first-part")).cloned().collect();
+    if in_a.is_empty() {
+        in_a.push(ids[0]);
+    }
+    if in_a.len() == ids.len() {
+        in_a.pop();
+    }
+    let in_b: Vec<(u32, u16)> = ids.iter().filter(|i| !in_a.contains(i)).cloned().collect();
+    // an object of part A of which the main part holds a stale definition
+    let stale = in_a[ctx.draw(W, in_a.len() as u64, "fc-stale") as usize];
+    let mut img: Vec<u8> = format!("%PDF-{}\n%\u{e2}\u{e3}\u{cf}\u{d3}\n", m.version).into_bytes();
+    let table = |img: &mut Vec<u8>, ents: &std::collections::BTreeMap<u32, (usize, u16, bool)>| {
+        img.extend_from_slice(b"xref\n");
+        let nums: Vec<u32> = ents.keys().cloned().collect();
+        let mut i = 0;
+        while i < nums.len() {
+            let mut j = i;
+            while j + 1 < nums.len() && nums[j + 1] == nums[j] + 1 {
+                j += 1;
+            }
+            img.extend_from_slice(format!("{} {}\n", nums[i], j - i + 1).as_bytes());
+            for n in &nums[i..=j] {
+                let (off, g, used) = ents[n];
+                img.extend_from_slice(format!("{:010} {:05} {} \n", off, g, if used { 'n' } else { 'f' }).as_bytes());
+            }
+            i = j + 1;
+        }
+    };
+    let size = m.objects.keys().map(|k| k.0).max().unwrap_or(0) as i64 + 1;
+    // ---- part A
+    let mut ents_a = std::collections::BTreeMap::new();
+    for id in &in_a {
+        ents_a.insert(id.0, (img.len(), id.1, true));
+        img.extend_from_slice(&object_bytes(ctx, f, *id, &m.objects[id]));
+        img.push(b'\n');
+    }
+    let s1 = img.len();
+    table(&mut img, &ents_a);
+    let mut t1: pdfmodel::MDict = pdfmodel::trailer_payload(&m.trailer);
+    t1.push((b"Size".to_vec(), MObj::Int(size)));
+    t1.push((b"Prev".to_vec(), MObj::Int(1234567890)));
+    img.extend_from_slice(b"trailer\n");
+    let t1_at = img.len();
+    img.extend_from_slice(&dict_bytes(ctx, f, &t1));
+    if ctx.chance(W, 1, 2, "fc-early-eof") {
+        // linearized files close the first part like a file of its own
+        img.extend_from_slice(b"\nstartxref\n0\n%%EOF");
+    }
+    img.push(b'\n');
+    // ---- part B
+    let mut ents_b = std::collections::BTreeMap::new();
+    ents_b.insert(0u32, (0usize, 65535u16, false));
+    for id in in_b.iter().chain(std::iter::once(&stale)) {
+        ents_b.insert(id.0, (img.len(), id.1, true));
+        let o = if *id == stale { MObj::Array(vec![MObj::Name(b"Stale".to_vec()), MObj::Int(id.0 as i64)]) } else { m.objects[id].clone() };
+        img.extend_from_slice(&object_bytes(ctx, f, *id, &o));
+        img.push(b'\n');
+    }
+    let s2 = img.len();
+    table(&mut img, &ents_b);
+    img.extend_from_slice(b"trailer\n");
+    img.extend_from_slice(&dict_bytes(ctx, f, &vec![(b"Size".to_vec(), MObj::Int(size))]));
+    img.extend_from_slice(format!("\nstartxref\n{s1}\n%%EOF\n").as_bytes());
+    // the forward link
+    let Some(p) = img[t1_at..s2].windows(10).position(|w| w == b"1234567890") else {
+        panic!("forward chain: Prev placeholder not found");
+    };
+    img[t1_at + p..t1_at + p + 10].copy_from_slice(format!("{:010}", s2).as_bytes());
+    ctx.count("forward-prev-chain-files");
+    ctx.event("c07-forward-chain", img.len() as u64, simcore::fnv(&img));
+    dump_image("c07-forward-chain.pdf", &img);
+    // ---- lopdf recovers the whole document, under a drawn schedule and sequentially
+    draw_sched(ctx);
+    let mut src = SimSource::new(ctx, &img, draw_benign_source(ctx));
+    let d = guarded("load_from", || sim::load_from(&mut src))?.map_err(|e| Violation::new("load-failed", format!("file with a forward-pointing Prev chain failed to load: {e}")))?;
+    let what = format!("forward-pointing Prev chain ({} objects in the first part, {} in the main part, freedom {f})", in_a.len(), in_b.len());
+    pdfmodel::same_doc(&m, &sim::from_doc(&d), &|_, _: &MObj| false).map_err(|(c, e)| Violation::new(c, format!("{what}: {e}")))?;
+    let d2 = guarded("load_mem(seq)", || seq::load_mem(&img))?.map_err(|e| Violation::new("load-failed", format!("{what}, sequential build: {e}")))?;
+    pdfmodel::same_doc(&m, &seq::from_doc(&d2), &|_, _: &MObj| false).map_err(|(c, e)| Violation::new(c, format!("{what}, sequential build: {e}")))?;
+    // ---- and can append an update to it
+    let mut inc = guarded("IncrementalDocument::load_from", || lopdf::IncrementalDocument::load_from(&img[..]))?
+        .map_err(|e| Violation::new("load-failed", format!("{what}: IncrementalDocument::load_from: {e:?}")))?;
+    let marker = MObj::Dict(vec![(b"AddedAfter".to_vec(), MObj::Name(b"ForwardChain".to_vec()))]);
+    let new_id = inc.new_document.add_object(sim::to_obj(&marker));
+    if m.objects.contains_key(&new_id) {
+        return Err(Violation::new("new-id-collides", format!("{what}: add_object on the new revision returned {new_id:?}, which the file already uses")));
+    }
+    let replaced = ids[ctx.draw(W, ids.len() as u64, "fc-replace") as usize];
+    inc.new_document.set_object(replaced, sim::to_obj(&MObj::Int(4242)));
+    let mut model = m.clone();
+    model.objects.insert(new_id, marker);
+    model.objects.insert(replaced, MObj::Int(4242));
+    let mut sink = SimSink::new(ctx, draw_benign_sink(ctx));
+    guarded("IncrementalDocument::save_to", || inc.save_to(&mut sink))?.map_err(|e| Violation::new("healthy-save-failed", format!("{what}: incremental save failed: {e}")))?;
+    let upd = sink.accepted;
+    if !upd.starts_with(&img) {
+        return Err(Violation::new("prefix-modified", format!("{what}: the saved update does not start with the loaded bytes")));
+    }
+    let d3 = guarded("load_mem", || sim::load_mem(&upd))?.map_err(|e| Violation::new("load-failed", format!("{what}: updated file failed to load: {e}")))?;
+    pdfmodel::same_doc(&model, &sim::from_doc(&d3), &|_, o: &MObj| pdfmodel::is_xref_stream_obj(o)).map_err(|(c, e)| Violation::new(c, format!("{what}: reload after an appended update: {e}")))?;
+    out.case_hash = simcore::fnv(&img);
+    out.nontrivial = true;
+    out.sample = what;
+    Ok(())
+}
+
 pub fn c07_foreign_history(ctx: &Ctx, out: &mut RunOut) -> Result<(), Violation> {
-    for k in ["three-deep-prev-chains", "updates-involving-object-streams"] {
+    for k in ["three-deep-prev-chains", "updates-involving-object-streams", "forward-prev-chain-files"] {
         ctx.count_n(k, 0); // registered so that a probe that never fires shows up as zero in the evidence
+    }
+    if ctx.chance(W, 1, 8, "forward-chain-case") {
+        return forward_chain_case(ctx, out);
     }
     let h = gen_history(ctx, 4, ctx.chance(W, 1, 2, "objstm-bias"), false, false);
     let n = h.revisions.len();
